@@ -116,7 +116,7 @@ def g1_bounds(F, R):
                 'config-space bounds guard: %s' % bad)
 
 
-def g5_window_extent(F, R):
+def g5_window_extent(F, R, rule='G5'):
     n = 0
     for b in F.bodies.values():
         if not F.handwritten(b) or 'transport' not in b['id']:
@@ -154,9 +154,9 @@ def g5_window_extent(F, R):
                     break
             R.tables += rows
             if bad and bad.startswith('unfoldable'):
-                R.abstain('G5', inst, bad, where)
+                R.abstain(rule, inst, bad, where)
                 continue
-            R.check(bad is None, 'G5', inst, where, 'count*size_of<T> <= capability length for %d (length,size) rows: %s' % (rows, fmt(cnt)[:80]),
+            R.check(bad is None, rule, inst, where, 'count*size_of<T> <= capability length for %d (length,size) rows: %s' % (rows, fmt(cnt)[:80]),
                     'configuration window extent: %s' % bad)
     R.count('window_builders', n)
 
